@@ -805,6 +805,14 @@ func (conn *diskConn) initWriter(width, height uint32, track *diskTrack, ts uint
 	}
 
 	if track != nil {
+		if !valid(track.origin) {
+			// we've just closed the previous file, which
+			// reset all the origins
+			track.setOrigin(
+				ts, time.Now(),
+				track.remote.Codec().ClockRate,
+			)
+		}
 		track.adjustOrigin(ts)
 	}
 
